@@ -57,6 +57,11 @@ pub struct DiskHist {
     pub max_disk_bytes: Option<u32>,
     #[serde(default)]
     pub max_files: Option<u16>,
+    /// the instances are built with `DiskCache::new_with_background_tasks` (cleanup and periodic
+    /// sync tasks, both with an interval of one year: only their immediate first tick runs). Rare:
+    /// the sync task shells out to sync(1).
+    #[serde(default)]
+    pub background: bool,
 }
 
 fn op_strategy() -> impl Strategy<Value = DOp> {
@@ -75,8 +80,9 @@ pub fn strategy() -> BoxedStrategy<DiskHist> {
         proptest::collection::vec(op_strategy(), 1..4),
         prop_oneof![3 => Just(None), 1 => Just(Some(1u32)), 2 => (16u32..600).prop_map(Some), 1 => (4000u32..14000).prop_map(Some)],
         prop_oneof![4 => Just(None), 1 => (1u16..4).prop_map(Some)],
+        proptest::bool::weighted(0.05),
     )
-        .prop_map(|(levels, pre, reopen, post, max_disk_bytes, max_files)| DiskHist { levels, pre, reopen, post, max_disk_bytes, max_files })
+        .prop_map(|(levels, pre, reopen, post, max_disk_bytes, max_files, background)| DiskHist { levels, pre, reopen, post, max_disk_bytes, max_files, background })
         .boxed()
 }
 
@@ -91,7 +97,19 @@ fn config(dir: &Path, h: &DiskHist) -> DiskCacheConfig {
     c
 }
 
+/// the observing instance of a later session: always the plain constructor
+fn open_plain(dir: &Path, h: &DiskHist) -> Result<DiskCache<SKey>, String> {
+    DiskCache::new(config(dir, h)).map_err(|e| format!("DiskCache::new: {e}"))
+}
+
 fn open(dir: &Path, h: &DiskHist) -> Result<DiskCache<SKey>, String> {
+    if h.background {
+        let year = Duration::from_secs(365 * 24 * 3600);
+        let cfg = DiskCacheConfig { cleanup_interval: year, sync_interval: year, ..config(dir, h) };
+        let rt = crate::rt();
+        let _g = rt.enter();
+        return DiskCache::new_with_background_tasks(cfg).map_err(|e| format!("DiskCache::new_with_background_tasks: {e}"));
+    }
     DiskCache::new(config(dir, h)).map_err(|e| format!("DiskCache::new: {e}"))
 }
 
@@ -103,6 +121,25 @@ fn apply(c: &DiskCache<SKey>, op: &DOp) -> Result<(), String> {
             rt.block_on(c.put_with_ttl(SKey(KEYS[*k as usize % KEYS.len()].into()), Bytes::from(v), Duration::from_secs(3600))).map_err(|e| format!("put_with_ttl: {e}"))
         }
         DOp::Remove { k } => rt.block_on(c.remove(&SKey(KEYS[*k as usize % KEYS.len()].into()))).map(|_| ()).map_err(|e| format!("remove: {e}")),
+    }
+}
+
+fn foreign_temp_files(dir: &Path) {
+    let own = format!(".{}-", std::process::id());
+    let other = format!(".{}-", std::process::id().wrapping_add(1).max(2));
+    let mut stack = vec![dir.to_path_buf()];
+    while let Some(d) = stack.pop() {
+        let Ok(rd) = std::fs::read_dir(&d) else { continue };
+        for e in rd.flatten() {
+            let p = e.path();
+            if p.is_dir() {
+                stack.push(p);
+            } else if let Some(name) = p.file_name().and_then(|n| n.to_str()) {
+                if name.ends_with(".tmp") && name.contains(&own) {
+                    let _ = std::fs::rename(&p, p.with_file_name(name.replacen(&own, &other, 1)));
+                }
+            }
+        }
     }
 }
 
@@ -134,8 +171,11 @@ impl Routine for Disk {
     }
 
     fn observe(h: &DiskHist, dir: &Path) -> Result<Obs, String> {
+        // the process that crashed had another process id than the one that opens the directory
+        // now: its temporary files (`<name>.<pid>-<n>.tmp`) are renamed accordingly
+        foreign_temp_files(dir);
         let rt = crate::rt();
-        let c = open(dir, h)?;
+        let c = open_plain(dir, h)?;
         let mut o = Obs::new();
         // before any get(): a fresh instance counts the files on disk, temp files excluded
         let size = rt.block_on(c.size()).map_err(|e| format!("size: {e}"))?;
@@ -156,7 +196,7 @@ impl Routine for Disk {
         // written before) and removes the last key; then a fresh instance observes
         Some((|| {
             let rt = crate::rt();
-            let c = open(dir, h)?;
+            let c = open_plain(dir, h)?;
             for (i, k) in KEYS.iter().enumerate() {
                 rt.block_on(c.put(SKey((*k).into()), bytes::Bytes::from(vec![b'a' + i as u8]))).map_err(|e| format!("follow-up put({k}): {e}"))?;
             }
@@ -177,6 +217,9 @@ impl Routine for Disk {
         v.push(if h.levels == 0 { "flat-layout" } else { "sub-directories" });
         if h.max_disk_bytes.is_some() || h.max_files.is_some() {
             v.push("size-limit-configured");
+        }
+        if h.background {
+            v.push("instances-with-background-tasks");
         }
         if h.reopen {
             v.push("second-put-by-new-instance");
